@@ -24,7 +24,7 @@ import numpy as np
 from . import lib
 from .lib import cbool, cZ, clist, copt, cstr
 
-GEN_DIR = os.path.join(lib.COQ, 'gen')
+GEN_DIR = lib.GEN
 HEADER = ('From Coq Require Import List ZArith Bool String.\n'
           'From PM Require Import C12Pre.\nFrom PMGen Require Import Gen_units.\n'
           'From PM Require Import C12Model.\nImport ListNotations.\nOpen Scope Z_scope.\n')
@@ -1325,7 +1325,7 @@ def run(ctx):
     lib.COQFLAGS = list(lib.COQFLAGS) + ['-R', GEN_DIR, 'PMGen']
     import fcntl
     os.makedirs(lib.BUILD, exist_ok=True)
-    lock = open(os.path.join(lib.BUILD, '.c12gen.lock'), 'w')
+    lock = open(os.path.join(lib.LOCKDIR, '.c12gen.lock'), 'w')
     fcntl.flock(lock, fcntl.LOCK_EX)
     coq_ok = False
     if ctx.ensure_library():
